@@ -216,6 +216,7 @@ class G:
         self.rng = rng
         self.t = itertools.count(1)
         self.feats = set()
+        self.scope = []          # comprehension loop variables readable at this point (hold opaque operands)
 
     def leaf(self):
         i = next(self.t)
@@ -236,6 +237,9 @@ class G:
         rng = self.rng
         r = rng.random()
         if d <= 0 or r < 0.3:
+            if self.scope and rng.random() < 0.45:
+                x = rng.choice(self.scope)
+                return x, ["n", x]
             if r < 0.12:
                 x = rng.choice(VARS)
                 return x, ["n", x]
@@ -387,6 +391,81 @@ class G:
             return 'f"' + "".join(p[0] for p in parts) + '"', ["fstr"] + [p[1] for p in parts]
         raise ValueError(kind)
 
+    def comp(self, d):
+        """a list / set / dict comprehension over opaque operands: 1-3 generators, name / tuple / subscript targets,
+        0-2 conditions each, inner iterables and conditions that read the outer loop variables, nested comprehensions"""
+        rng = self.rng
+        self.feats.add("comp")
+        pool = ["x", "y", "z", "a"]
+        ngen = rng.choice([1, 1, 2, 2, 3])
+        targets = []
+        for _ in range(ngen):
+            r = rng.random()
+            if r < 0.18:
+                targets.append(tuple(rng.sample(pool, 2)))
+            else:
+                targets.append((rng.choice(pool),))
+        outer_scope = self.scope
+        bound = list(outer_scope)
+        gsrc, gsx = [], []
+        for gi, tg in enumerate(targets):
+            later = [n for t2 in targets[gi:] for n in t2 if n not in bound]
+            early = gi > 0 and later and rng.random() < 0.07
+            self.scope = bound + ([rng.choice(later)] if early else [])
+            if early:
+                self.feats.add("comp-read-before-bound")
+            r = rng.random()
+            if r < 0.45:
+                it = self.vexpr(min(d - 1, 1))                      # an opaque operand: iter() event, 0-2 fresh items from the tape
+            else:
+                es = [self.vexpr(min(d - 1, 1)) for _ in range(rng.randrange(0, 4))]
+                if r < 0.8:
+                    it = ("[" + ", ".join(e[0] for e in es) + "]", ["seq", 0] + [["p", e[1]] for e in es])
+                else:
+                    it = ("(" + "".join(e[0] + ", " for e in es) + ")", ["seq", 1] + [["p", e[1]] for e in es])
+            if len(tg) == 2:
+                tsrc, tsx = f"({tg[0]}, {tg[1]})", ["tup", False, [["n", tg[0]], ["n", tg[1]]], "-", []]
+                self.feats.add("comp-tuple-target")
+            elif rng.random() < 0.06:
+                self.scope = bound
+                v, i = self.vexpr(0), self.sink(0)
+                tsrc, tsx = f"{v[0]}[{i[0]}]", ["sub", v[1], i[1]]
+                tg = ()
+                self.feats.add("comp-subscript-target")
+            else:
+                tsrc, tsx = tg[0], ["n", tg[0]]
+            bound = bound + [n for n in tg if n not in bound]
+            later2 = [n for t2 in targets[gi + 1:] for n in t2 if n not in bound]
+            early2 = later2 and rng.random() < 0.04
+            self.scope = bound + ([rng.choice(later2)] if early2 else [])
+            if early2:
+                self.feats.add("comp-read-before-bound")
+            ifs = [self.anyexpr(min(d - 1, 2)) for _ in range(rng.choice([0, 0, 1, 1, 2]))]
+            if len(ifs) >= 2:
+                self.feats.add("comp-two-conditions")
+            gsrc.append(f"for {tsrc} in {it[0]}" + "".join(f" if {c[0]}" for c in ifs))
+            gsx.append(["gen", tsx, it[1], [c[1] for c in ifs]])
+        self.scope = bound
+        kind = rng.choice(["list", "list", "set", "dict"])
+        if ngen >= 2:
+            self.feats.add("comp-nested-generators")
+        try:
+            if kind == "dict":
+                k = self.vexpr(min(d - 1, 1))
+                v = self.comp(d - 2) if d >= 3 and rng.random() < 0.2 else self.sink(min(d - 1, 2))
+                return "{" + f"{k[0]}: {v[0]} " + " ".join(gsrc) + "}", ["dcomp", k[1], v[1], gsx]
+            if kind == "set":
+                e = self.vexpr(min(d - 1, 2))
+                return "{" + f"{e[0]} " + " ".join(gsrc) + "}", ["comp", 2, e[1], gsx]
+            if d >= 3 and rng.random() < 0.25:
+                self.feats.add("comp-in-comp")
+                e = self.comp(d - 2)
+            else:
+                e = self.sink(min(d - 1, 2))
+            return f"[{e[0]} " + " ".join(gsrc) + "]", ["comp", 0, e[1], gsx]
+        finally:
+            self.scope = outer_scope
+
     def target(self, d, allow_tuple=True, vtyped=True):
         """vtyped: the assigned value is an opaque operand (so operand variables may be bound)"""
         rng = self.rng
@@ -456,7 +535,7 @@ PRELUDE_SX = [["assign", [["n", "a"]], ["T", 90]], ["assign", [["n", "b"]], ["T"
 
 
 def gen_cases(rng, tier, search):
-    n = 2500 if tier == "quick" else 40000
+    n = 2100 if tier == "quick" else 40000
     if search:
         n *= 3
     cases, seen = [], set()
@@ -476,6 +555,39 @@ def gen_cases(rng, tier, search):
         line = "C01 " + sx(["run", ["tape"] + tape, PRELUDE_SX + [s[1] for s in stmts]])
         cases.append(Case({"stream": "trace", "src": src, "tape": tape, "features": sorted(g.feats)}, line,
                           tags=["trace"] + sorted(g.feats)))
+    # comprehensions over opaque operands (model column: the comprehension evaluator of Model/C01.lean)
+    m = 480 if tier == "quick" else 12000
+    if search:
+        m *= 3
+    for _ in range(m):
+        g = G(rng)
+        c = g.comp(rng.choice([2, 3, 3, 4]))
+        form = rng.random()
+        if form < 0.55:
+            x = rng.choice(["r", "p", "q"])      # never an operand variable: the result is a container
+            stmts = [(f"{x} = {c[0]}", ["assign", [["n", x]], c[1]])]
+        elif form < 0.75:
+            f = g.vexpr(1)
+            stmts = [(f"r = {f[0]}({c[0]})", ["assign", [["n", "r"]], ["call", f[1], [["p", c[1]]], []]])]
+        else:
+            stmts = [(c[0], ["expr", c[1]])]
+        if rng.random() < 0.3:
+            stmts.append(g.stmt(2))
+        if rng.random() < 0.2:
+            stmts.insert(0, g.stmt(1))
+        src = PRELUDE_SRC + "\n".join(s[0] for s in stmts) + "\n"
+        try:
+            compile(src, "t", "exec")
+        except SyntaxError:
+            continue
+        tape = [0, 0, 0] + [rng.choice([0, 1, 1, 2, 2, 2, 2, 7]) for _ in range(rng.randrange(0, 26))]
+        key = (src, tuple(tape))
+        if key in seen:
+            continue
+        seen.add(key)
+        line = "C01 " + sx(["run", ["tape"] + tape, PRELUDE_SX + [s[1] for s in stmts]])
+        cases.append(Case({"stream": "trace", "src": src, "tape": tape, "features": sorted(g.feats)}, line,
+                          tags=["trace", "comp-trace"] + sorted(g.feats)))
     cases += value_cases(rng, tier)
     cases += compscope_cases(rng, tier)
     return cases
@@ -634,7 +746,101 @@ def value_cases(rng, tier):
             continue
         out.append(Case({"stream": "value", "src": src, "tape": tape, "features": ["comprehension", "comp-traced"]}, None,
                         tags=["value", "comprehension", "comp-traced"]))
+    # unpacking a list OBJECT into targets that store into that same object (directly, through an alias, into a nested
+    # list that a nested target unpacks, as the `for` target of a comprehension): CPython takes all items BEFORE the first
+    # store (UNPACK_SEQUENCE / UNPACK_EX), so an earlier store must not change what a later target receives
+    seen = set()
+    for src, feats in UNPACK_FIXED:
+        add(src, "unpack", "unpack-self-store", *feats)
+    for _ in range(110 if tier == "quick" else 3000):
+        src = UnpackGen(rng).program()
+        if src in seen:
+            continue
+        seen.add(src)
+        try:
+            compile(src, "t", "exec")
+        except SyntaxError:
+            continue
+        # `*a[1:]` / `*o.attr` as starred target: recurse_assign reads `.id` of the starred node (known finding C01-F15)
+        add(src, "unpack", "unpack-self-store", *(["star-nonname-target"] if re.search(r"\*[a-z]\w*[\[.]", src) else []))
     return out
+
+
+UNPACK_FIXED = [
+    ("a = [1, 2]\na[1], a[0] = a\n", []),
+    ("a = [1, 2, 3]\na[2], a[0], a[1] = a\n", []),
+    ("a = [Tv(1, 10), Tv(2, 20)]\nb = a\nb[Tv(3, 1)], b[Tv(4, 0)] = a\n", ["alias"]),
+    ("m = [[1, 2], 0]\n(m[0][1], m[0][0]), m[1] = m\n", ["nested"]),
+    ("a = [1, 2]\nr = [0 for a[1], a[0] in [a]]\n", ["comp-target"]),
+    ("a = [[7], 8, 9]\na[1:], x, y = a\n", ["slice-store"]),
+    ("a = [1, 2, 3]\na[0], *a[1:] = a\n", ["slice-store", "star-nonname-target"]),
+    ("a = [1, 2, 3, 4]\na[3], *r, a[0] = a\n", ["star"]),
+    ("a = [1, 2]\n[a[1], a[0]] = a\n", ["list-target"]),
+    ("a = [1, 2]\nx = y = 0\na[1], x, = a\n", []),
+    ("a = [5, 6]\nfor a[1], a[0] in [a, a]:\n    pass\n", ["for-target"]),
+    ("a = [1, 2, 3]\nx, *y = a\nz = y is a\nw = y == a\n", ["control"]),
+]
+
+
+class UnpackGen:
+    """`<targets> = L` where L is a list object and some targets are subscript / slice stores into L itself"""
+
+    def __init__(self, rng):
+        self.rng = rng
+
+    def program(self):
+        rng = self.rng
+        n = rng.choice([2, 2, 3, 3, 4])
+        nested = rng.random() < 0.3
+        vals = rng.sample(range(1, 30), n)
+        items = [str(v) for v in vals]
+        lines = []
+        if nested:
+            # element 0 is itself a list that a nested target unpacks while storing into it
+            m = rng.choice([2, 3])
+            inner = rng.sample(range(40, 70), m)
+            items[0] = "[" + ", ".join(str(v) for v in inner) + "]"
+        lines.append("a = [" + ", ".join(items) + "]")
+        alias = rng.random() < 0.35
+        if alias:
+            lines.append("b = a")
+        nm = (lambda: rng.choice(["a", "b"])) if alias else (lambda: "a")
+
+        def store(base, length):
+            r = rng.random()
+            if r < 0.62:
+                i = rng.randrange(-length, length + (1 if rng.random() < 0.1 else 0))
+                return f"{base}[{i}]"
+            if r < 0.72:
+                return f"{base}[{rng.randrange(0, length)}:{rng.choice(['', str(rng.randrange(0, length + 1))])}]"
+            return rng.choice(["x", "y", "z"])
+
+        tgts = []
+        star_at = rng.randrange(0, n) if rng.random() < 0.2 else None
+        k = n if star_at is None else rng.randrange(1, n + 1)
+        for j in range(k):
+            if j == star_at:
+                tgts.append("*" + (rng.choice(["s", "s", f"{nm()}[{rng.randrange(0, n)}:]"])))
+            elif nested and j == 0 and rng.random() < 0.8:
+                m = items[0].count(",") + 1
+                sub = [store(f"{nm()}[0]", m) for _ in range(m)]
+                tgts.append("(" + ", ".join(sub) + ")")
+            else:
+                tgts.append(store(nm(), n))
+        if rng.random() < 0.08:
+            tgts = tgts[:-1] if len(tgts) > 1 else tgts + ["x"]            # arity mismatch: ValueError before any store
+        tl = ", ".join(tgts) + ("," if len(tgts) == 1 else "")
+        rhs = nm()
+        form = rng.random()
+        if form < 0.7:
+            if rng.random() < 0.2:
+                tl = "[" + ", ".join(tgts) + "]"
+            lines.append(f"{tl} = {rhs}")
+        elif form < 0.85:
+            lines.append(f"r = [0 for {tl} in [{rhs}]]")
+        else:
+            lines.append(f"for {tl} in [{rhs}]:\n    pass")
+        return "\n".join(lines) + "\n"
 
 
 class CompGen:
@@ -741,7 +947,9 @@ def run_cpython(src, tape, stream):
 
 def finish(w, G0, exc, stream):
     if exc is not None:
-        res = "exc:" + (f"T{exc.i}" if isinstance(exc, TErr) else type(exc).__name__)
+        # UnboundLocalError is the NameError family (a comprehension variable read before its generator binds it)
+        res = "exc:" + (f"T{exc.i}" if isinstance(exc, TErr) else
+                        "NameError" if stream == "trace" and isinstance(exc, NameError) else type(exc).__name__)
     else:
         items = {k: v for k, v in G0.items() if k not in ("T", "Tv") and not k.startswith("__")
                  and (isinstance(v, V) or not callable(v))}
@@ -786,6 +994,14 @@ def run_impl(cases):
             c.payload["cpython"] = b
 
 
+def split(outline):
+    """driver line -> (model+spec columns, `conf` = is the program in the fragment ConfProg Current.cfg of the theorems)"""
+    if " conf=" in outline:
+        m, conf = outline.rsplit(" conf=", 1)
+        return m, conf.strip()
+    return outline, None
+
+
 def verdict(c):
     if c.payload["pyscript"] != c.payload["cpython"]:
         return f"pyscript {c.payload['pyscript'][:300]!r} != CPython {c.payload['cpython'][:300]!r}"
@@ -802,6 +1018,16 @@ def classify(c, reason):
         m = re.match(r"model=(.*) spec=", c.model)
         if not m or m.group(1) != c.payload.get("pyscript"):
             return "unmodelled:" + "+".join(sorted(f))
+    ps, cp = c.payload.get("pyscript", ""), c.payload.get("cpython", "")
+    # C01-F14: a comprehension clause reads a loop variable that a LATER generator binds: Python raises (NameError family),
+    # pyscript reads the enclosing variable of that name.  Excused only in exactly that form.
+    # The Lean fragment predicate itself (`conf=false` from the driver: some comprehension is not `compEarlyFree`) decides
+    # whether a program may be excused, not a tag of the generator.
+    if c.spec == "false" and cp.endswith("|exc:NameError") and not ps.endswith("|exc:NameError"):
+        return "comp-read-before-bound"
+    # C01-F15: `*a[1:]` / `*o.attr` as starred target: recurse_assign reads `.id` of the starred node
+    if "star-nonname-target" in f and ps.endswith("|exc:AttributeError") and not cp.endswith("|exc:AttributeError"):
+        return "star-nonname-target"
     for k in PRIORITY:
         if k in f:
             return k
